@@ -476,13 +476,17 @@ class TransactionManager(Elaboratable):
         # step 5: construct merged transactions
         with DependencyContext(DependencyManager()):
             for group in final_simultaneous:
-                # A body nested in a body it is simultaneous with (a `condition` branch) cannot run without it.
+                # Every body the group runs needs each of its simultaneous partners (one of them, for partners declared
+                # as alternatives) to be run by the group too: a group which cannot be completed is not built.
+                def partners(body: Body, dep: Body):
+                    families = [[x, *x.independent_list] for x in body.simultaneous_list]
+                    return [d for d in body.simultaneous_list if d is dep or any(d in f and dep in f for f in families)]
+
                 if any(
-                    not group & frozenset(method_map.transactions_for(dep))
+                    not any(group & frozenset(method_map.transactions_for(alt)) for alt in partners(body, dep))
                     for transaction in group
                     for body in method_map.ready_for_transaction(transaction)
-                    for dep in ready_dependencies[body]
-                    if dep in body.simultaneous_list
+                    for dep in body.simultaneous_list
                 ):
                     continue
                 name = "_".join([t.name for t in group])
